@@ -134,7 +134,7 @@ def run(ctx, report: Report) -> None:
     report.trusted_base = ['re._parser.parse', 'ast']
 
     # ---- R1 ---------------------------------------------------------------------------------------------------
-    r1 = report.rule('C02-R1', 'interval beliefs about the nth candidate index agree', floor=4)
+    r1 = report.rule('C02-R1', 'interval beliefs about the nth candidate index agree', floor=2)
     mod, fn = src.func('css_match.CSSMatch.match_nth')
     whiles = [n for n in ast.walk(fn) if isinstance(n, ast.While)]
     cand = {}
@@ -235,7 +235,7 @@ def run(ctx, report: Report) -> None:
                          f'group {grp} of {tok} and (RE_NTH|even|odd) disagree on {d[1]!r}')
 
     # ---- R3 (tables by partial evaluation of parse_pseudo_nth / parse_pseudo_class) ------------------------
-    r3 = report.rule('C02-R3', 'every An+B spelling and keyword form builds the record of the An+B it denotes', floor=38)
+    r3 = report.rule('C02-R3', 'every An+B spelling and keyword form builds the record of the An+B it denotes', floor=19)
     from .sem import nth_table
     from ..interp import Obj, Raised, call_function
     from ..miniev import Unsupported
@@ -270,7 +270,7 @@ def run(ctx, report: Report) -> None:
                              f'{spelled} builds nth records {rec}; the An+B instance it names is {exp} (a, n, b, of_type, last)')
 
     # ---- R4 ---------------------------------------------------------------------------------------------------
-    r4 = report.rule('C02-R4', '-of-type equality = name AND namespace; every SelectorNth field is read', floor=59)
+    r4 = report.rule('C02-R4', '-of-type equality = name AND namespace; every SelectorNth field is read', floor=29)
     from .sem import same_type_table
     same_type_table(ctx, r4)
     # the siblings that are counted are the children of the real parent, whatever the document kind
@@ -285,12 +285,8 @@ def run(ctx, report: Report) -> None:
                   lambda html, restrict: False,
                   'An+B counts the element among ALL element children of its parent (an iframe element is an ordinary parent)', required=False)
     # plain :nth-child(An+B) counts every element sibling: its implicit "of S" is the namespace-wildcard universal selector
-    dflt = None
-    for st in src.mod('css_parser').tree.body:
-        if isinstance(st, ast.Assign) and isinstance(st.targets[0], ast.Name) and st.targets[0].id == 'CSS_NTH_OF_S_DEFAULT':
-            for c in ast.walk(st.value):
-                if isinstance(c, ast.Call) and src.resolve_class_ref(src.mod('css_parser'), c.func) == 'css_parser.CSSParser' and c.args:
-                    dflt = inv.folder.try_ev('css_parser', c.args[0], default=None)
+    from .sem import selector_constants
+    dflt = selector_constants(ctx).get('CSS_NTH_OF_S_DEFAULT', {}).get('text')
     if not isinstance(dflt, str):
         raise AnalysisError('CSS_NTH_OF_S_DEFAULT: selector text not found (anchor vanished)')
     import re as _re
